@@ -277,6 +277,36 @@ def trio_job(job):
     return {'packer': pname, 'x': f'{wname}+{rname}', 'runs': runs, 'unique': list(unique.values())}
 
 
+def crowd_job(job):
+    """Worker: two writers (the same new content and duplicates), two readers of different kinds, one seeking reader and
+    the packer under random segment lists ('any number of clients')."""
+    pname, count, seed = job
+    common.import_lib()
+    shim.install()
+    rng = common.rng('crowd', pname, seed)
+    mode, perpack = PACKERS[pname]
+    spec = [('W', lambda f: writer(f, ['k7', 'k1'])), ('W2', lambda f: writer(f, ['k7', 'k6', 'k5'])),
+            ('R', X_KINDS['r-bulk']), ('R2', X_KINDS['r-has-pinned']), ('S', X_KINDS['r-seek']),
+            ('P', lambda f: packer(f, mode, perpack))]
+    names = [n for n, _ in spec]
+    unique = {}
+    runs = 0
+    with common.scratch('cw') as work:
+        base = os.path.join(work, 'base')
+        os.makedirs(base)
+        build_pre(os.path.join(base, 'c'))
+        for index in range(1, count + 1):
+            segments = [(rng.choice(names), rng.randint(1, 10)) for _ in range(rng.randint(4, 24))]
+            logical, _trace, _steps = execute(base, work, spec, segments, index)
+            runs += 1
+            norm = [_norm(line) for line in logical]
+            digest = hashlib.sha1(json.dumps(norm, sort_keys=True).encode()).hexdigest()
+            if digest not in unique:
+                unique[digest] = {'lines': norm, 'segments': segments, 'count': 0, 'packer': pname, 'x': 'crowd', 'actors': names}
+            unique[digest]['count'] += 1
+    return {'packer': pname, 'x': 'crowd', 'runs': runs, 'unique': list(unique.values())}
+
+
 INVARIANTS = ['C04_ReadCorrect', 'C04_WriteKeyCorrect', 'C04_NoUnexpectedFailure', 'C04_FinalStateOK']
 
 
@@ -284,7 +314,7 @@ def monitor(traces, workdir):
     trace_file = os.path.join(workdir, 'conc.ndjson')
     with open(trace_file, 'w', encoding='utf8') as handle:
         handle.write(json.dumps({'kind': 'header', 'universe': UNIVERSE, 'acked0': [k for k, _ in PRE],
-                                 'actors': ['X', 'P', 'W', 'R', '-']}) + '\n')
+                                 'actors': ['X', 'P', 'W', 'R', 'W2', 'R2', 'S', '-']}) + '\n')
         for trace in traces:
             handle.write(json.dumps({'lines': trace['lines']}) + '\n')
     cfg = os.path.join(workdir, 'ConcTrace.cfg')
@@ -330,6 +360,7 @@ def check_C04(report: common.Report):
         trio_jobs.append((list(PACKERS)[idx % len(PACKERS)], writers[idx % len(writers)], rname, 1500 if thorough else 120,
                           seed, sequences))
     results += common.pmap(trio_job, trio_jobs)
+    results += common.pmap(crowd_job, [(p, 400 if thorough else 40, seed) for p in (list(PACKERS) if thorough else ['YES-pp1', 'NO-pp0'])])
     traces = []
     runs = 0
     for result in results:
@@ -400,6 +431,10 @@ def replay(data) -> int:
     mode, perpack = PACKERS[rep['packer']]
     if rep['actors'] == ['X', 'P']:
         spec = [('X', X_KINDS[rep['x']]), ('P', lambda f: packer(f, mode, perpack))]
+    elif rep['x'] == 'crowd':
+        spec = [('W', lambda f: writer(f, ['k7', 'k1'])), ('W2', lambda f: writer(f, ['k7', 'k6', 'k5'])),
+                ('R', X_KINDS['r-bulk']), ('R2', X_KINDS['r-has-pinned']), ('S', X_KINDS['r-seek']),
+                ('P', lambda f: packer(f, mode, perpack))]
     else:
         wname, rname = rep['x'].split('+')
         spec = [('W', X_KINDS[wname]), ('R', X_KINDS[rname]), ('P', lambda f: packer(f, mode, perpack))]
